@@ -30,19 +30,25 @@ def matrix_table():
     out = []
     for rnd, fn in (("round 1", "MATRIX.json"), ("round 2 (as first measured)", "MATRIX-round2-first.json"), ("round 2 (after strengthening)", "MATRIX-round2.json"),
                     ("round 3 (as first measured)", "MATRIX-round3-first.json"), ("round 3 (after strengthening)", "MATRIX-round3.json"),
-                    ("round 4 (as first measured)", "MATRIX-round4-first.json"), ("round 4 (after strengthening)", "MATRIX-round4.json")):
+                    ("round 4 (as first measured)", "MATRIX-round4-first.json"), ("round 4 (after strengthening)", "MATRIX-round4.json"),
+                    ("round 5 (as first measured)", "MATRIX-round5-first.json"), ("round 5 (with E15 and Cnn.RV)", "MATRIX-round5.json"),
+                    ("round 6 (as first measured, E15 and Cnn.RV in place)", "MATRIX-round6-first.json")):
         p = os.path.join(VERIF, "seeded", fn)
         if not os.path.exists(p):
             continue
         m = json.load(open(p))["results"]
         if rnd.startswith("round 1"):
-            m = {k: v for k, v in m.items() if "-r2" not in k and "-r3" not in k and "-r4" not in k}
+            m = {k: v for k, v in m.items() if "-r2" not in k and "-r3" not in k and "-r4" not in k and "-r5" not in k and "-r6" not in k}
         if rnd.startswith("round 2"):
             m = {k: v for k, v in m.items() if "-r2" in k}
         if rnd.startswith("round 3"):
             m = {k: v for k, v in m.items() if "-r3" in k}
         if rnd.startswith("round 4"):
             m = {k: v for k, v in m.items() if "-r4" in k}
+        if rnd.startswith("round 5"):
+            m = {k: v for k, v in m.items() if "-r5" in k}
+        if rnd.startswith("round 6"):
+            m = {k: v for k, v in m.items() if "-r6" in k}
         if not m:
             continue
         live = {k: v for k, v in m.items() if not v.get("retired")}
@@ -74,10 +80,40 @@ def matrix_table():
     return "\n".join(out)
 
 
+def benign_table():
+    p = os.path.join(VERIF, "benign", "MATRIX.json")
+    if not os.path.exists(p):
+        return "(benign/MATRIX.json not generated yet)"
+    m = json.load(open(p))["results"]
+    rows = []
+    n = {"rb1": [0, 0], "rb2": [0, 0]}
+    for k in sorted(m):
+        v = m[k]
+        rd = "rb2" if "rb2" in k else "rb1"
+        alarm = bool(v.get("violation") or v.get("analysis_error"))
+        n[rd][0] += 1
+        n[rd][1] += alarm
+        if alarm:
+            meta = {}
+            try:
+                meta = json.load(open(os.path.join(VERIF, "benign", k, "meta.json")))
+            except Exception:
+                pass
+            rules = sorted({r for pv in v.get("violation", {}).values() for r in pv["rules"]})
+            what = (meta.get("summary") or meta.get("kind") or "").replace("|", "\\|").replace("\n", " ")
+            rows.append("| %s | %s | %s | %s |" % (k, what[:150] + ("..." if len(what) > 150 else ""), ",".join(sorted(v.get("violation", {})) + ["(%s: analysis-error)" % x for x in sorted(v.get("analysis_error", {}))]),
+                                                 ", ".join(rules)[:120]))
+    head = ["**Round 1** (%d changes; the corpus the normal forms of E14 were developed on): %d silent in all twenty checks, %d false alarms. "
+            "**Round 2** (%d changes; written after E14/E15/RV existed, first measured blind at 29 silent / 18 alarms, then used to add normal forms): %d silent, %d false alarms." % (
+                n["rb1"][0], n["rb1"][0] - n["rb1"][1], n["rb1"][1], n["rb2"][0], n["rb2"][0] - n["rb2"][1], n["rb2"][1]), "",
+            "| behaviour-preserving change that still raises an alarm | what it does | properties that alarm | rules |", "|---|---|---|---|"]
+    return "\n".join(head + rows)
+
+
 def main():
     p = os.path.join(VERIF, "DESIGN.md")
     s = open(p).read()
-    for name, gen in (("FINDINGS-TABLE", findings_table), ("MATRIX-TABLE", matrix_table)):
+    for name, gen in (("FINDINGS-TABLE", findings_table), ("MATRIX-TABLE", matrix_table), ("BENIGN-TABLE", benign_table)):
         body = gen()
         pat = re.compile(r"<!-- %s -->.*?<!-- /%s -->" % (name, name), re.S)
         block = "<!-- %s -->\n%s\n<!-- /%s -->" % (name, body, name)
